@@ -37,12 +37,21 @@ template <> kll_sketch<float> make<kll_sketch<float>>(int, int k) { return kll_s
 template <> req_sketch<float> make<req_sketch<float>>(int fam, int k) { return req_sketch<float>(static_cast<uint16_t>(k), fam == REQ_HRA); }
 template <> quantiles_sketch<float> make<quantiles_sketch<float>>(int, int k) { return quantiles_sketch<float>(static_cast<uint16_t>(k)); }
 
+// ksmall > 0: the parts selected by small_mask (never the first) are built with the smaller ksmall, so that the merge tree mixes sizes and the
+// error published by the result has to follow the smallest k that contributed data
 template <typename SK>
-SK build(int fam, int k, const std::vector<float>& s, int parts) {
+SK build(int fam, int k, const std::vector<float>& s, int parts, int ksmall = 0, unsigned small_mask = 0) {
   if (parts <= 1) { SK sk = make<SK>(fam, k); for (float x : s) sk.update(x); return sk; }
   std::vector<SK> ps;
-  for (int p = 0; p < parts; ++p) { ps.push_back(make<SK>(fam, k)); }
-  for (size_t i = 0; i < s.size(); ++i) ps[(i * parts) / s.size()].update(s[i]);
+  for (int p = 0; p < parts; ++p) { ps.push_back(make<SK>(fam, (ksmall > 0 && p > 0 && ((small_mask >> p) & 1)) ? ksmall : k)); }
+  int small_idx = -1;
+  for (int p = 1; p < parts; ++p) if (ksmall > 0 && ((small_mask >> p) & 1)) small_idx = p;
+  if (small_idx < 0) { for (size_t i = 0; i < s.size(); ++i) ps[(i * parts) / s.size()].update(s[i]); }
+  else {  // the small-k part sees half of the stream, the rest is split evenly: its coarser error must dominate the published one
+    size_t half = s.size() / 2, rest = s.size() - half;
+    for (size_t i = 0; i < half; ++i) ps[small_idx].update(s[i]);
+    for (size_t i = 0; i < rest; ++i) { int p = static_cast<int>((i * (parts - 1)) / rest); if (p >= small_idx) ++p; ps[p].update(s[half + i]); }
+  }
   // binary merge tree
   while (ps.size() > 1) {
     std::vector<SK> next;
@@ -56,7 +65,7 @@ SK build(int fam, int k, const std::vector<float>& s, int parts) {
 double need(double nominal, double slack, long T) { return nominal - slack - 5.0 * std::sqrt(nominal * (1 - nominal) / T); }
 
 template <typename SK>
-void run_eps(int fam, int k, const std::vector<float>& stream, int parts, uint64_t cseed, long T, const std::string& who) {
+void run_eps(int fam, int k, const std::vector<float>& stream, int parts, uint64_t cseed, long T, const std::string& who, int ksmall = 0, unsigned small_mask = 0) {
   std::vector<float> sorted = stream; std::sort(sorted.begin(), sorted.end());
   const size_t n = sorted.size();
   // query grid: 25 positions of the sorted stream
@@ -67,7 +76,7 @@ void run_eps(int fam, int k, const std::vector<float>& stream, int parts, uint64
   double eps = 0, eps_pmf = 0;
   for (long t = 0; t < T; ++t) {
     vf::own_randomness(vf::mix64(cseed + 1000003ull * t));
-    SK sk = build<SK>(fam, k, stream, parts);
+    SK sk = build<SK>(fam, k, stream, parts, ksmall, small_mask);
     VF_CHECK(sk.get_n() == n, "n", who << ": n " << sk.get_n());
     eps = sk.get_normalized_rank_error(false); eps_pmf = sk.get_normalized_rank_error(true);
     double worst = 0;
@@ -129,8 +138,13 @@ void prop(const Case& cs) {
   int k = fam == KLL ? (ksel == 0 ? 200 : ksel == 1 ? 64 : 400) : fam == CLASSIC ? (ksel == 0 ? 128 : ksel == 1 ? 32 : 256) : (ksel == 0 ? 12 : ksel == 1 ? 6 : 24);
   std::vector<float> stream = make_stream(n, pat, cseed ^ 0x55);
   std::ostringstream who; who << fam_name(fam) << " k=" << k << " n=" << n << " pattern=" << pat << " parts=" << parts << " T=" << T;
-  if (fam == KLL) run_eps<kll_sketch<float>>(fam, k, stream, parts, cseed, T, who.str());
-  else if (fam == CLASSIC) run_eps<quantiles_sketch<float>>(fam, k, stream, parts, cseed, T, who.str());
+  // exactly one part (never the first) is small; when it is the second operand of a pair whose result is later merged into
+  // another sketch - e.g. part 3: (2<-3) then (0<-2) - the published error has to travel through a depth-2 merge chain
+  unsigned small_mask = parts >= 2 ? (1u << (1 + vf::mix64(cseed ^ 0x77) % static_cast<uint64_t>(parts - 1))) : 0u;
+  int ksmall = (parts >= 3 && (cs.get("mixk", 0) & 1)) ? (fam == KLL ? 8 : 2) : 0;
+  if (ksmall) { who << " mixed-k(" << ksmall << ")"; vf::label("mixed-k-merge-tree"); }
+  if (fam == KLL) run_eps<kll_sketch<float>>(fam, k, stream, parts, cseed, T, who.str(), ksmall, small_mask);
+  else if (fam == CLASSIC) run_eps<quantiles_sketch<float>>(fam, k, stream, parts, cseed, T, who.str(), ksmall, small_mask);
   else run_req(fam, k, stream, parts, cseed, T, who.str());
   vf::count("trials", static_cast<uint64_t>(T));
   vf::label(std::string("family:") + fam_name(fam));
@@ -141,7 +155,7 @@ void prop(const Case& cs) {
 rc::Gen<Case> gen() {
   using namespace vf;
   return make_case({{"fam", range(0, NFAM - 1)}, {"pat", range(0, 3)}, {"parts", rc::gen::weightedOneOf<int64_t>({{1, range(0, 0)}, {2, range(1, 7)}})}, {"k", range(0, 2)},
-                    {"n", range(0, 189999)}, {"seed", range(1, 1 << 30)}},
+                    {"n", range(0, 189999)}, {"seed", range(1, 1 << 30)}, {"mixk", range(0, 1)}},
                    rc::gen::just(std::vector<Op>{}));
 }
 
